@@ -19,6 +19,10 @@ pub enum Strategy {
     StarveOne { from: u32, len: u32 },
     /// lowest-id-first rotation
     RoundRobin,
+    /// uniform, but the `nth` task to appear (spawn order) is frozen after it has been
+    /// scheduled `after` times and stays frozen while anything else can run, for at most
+    /// `max_freeze` decisions: "pause one thread at a point and let everybody else finish"
+    DelayOne { nth: u32, after: u32, max_freeze: u32 },
 }
 
 #[derive(Clone, Debug, Serialize, Deserialize)]
@@ -59,6 +63,9 @@ pub struct Sched {
     change_points: Vec<u64>,
     victim: Option<usize>,
     cands: Vec<usize>,
+    seen: Vec<usize>,
+    victim_scheduled: u32,
+    frozen_for: u32,
 }
 
 impl Sched {
@@ -81,6 +88,9 @@ impl Sched {
             change_points,
             victim: None,
             cands: Vec::with_capacity(40),
+            seen: Vec::new(),
+            victim_scheduled: 0,
+            frozen_for: 0,
         }
     }
 
@@ -234,6 +244,28 @@ impl Scheduler for Sched {
                         }
                     }
                     best
+                }
+                Strategy::DelayOne { nth, after, max_freeze } => {
+                    for &c in &self.cands {
+                        if !self.seen.contains(&c) {
+                            self.seen.push(c);
+                        }
+                    }
+                    if self.victim.is_none() {
+                        self.victim = self.seen.get(nth as usize).copied();
+                    }
+                    let mut pool = self.cands.clone();
+                    if let Some(v) = self.victim {
+                        if self.victim_scheduled >= after && self.frozen_for < max_freeze && pool.len() > 1 && pool.contains(&v) {
+                            pool.retain(|&x| x != v);
+                            self.frozen_for += 1;
+                        }
+                    }
+                    let pick = pool[self.rng.below(pool.len() as u64) as usize];
+                    if Some(pick) == self.victim {
+                        self.victim_scheduled += 1;
+                    }
+                    pick
                 }
                 Strategy::StarveOne { from, len } => {
                     let s = self.out.steps;
